@@ -312,6 +312,7 @@ static void prop_c03(Tape &t, Result &r) {
   gp::GenCfg cfg;
   cfg.user_macros = t.chance(1, 3);
   cfg.dup_params = dup && !excluded("code:dup-params");
+  cfg.wide_frame = !cfg.user_macros && !mutate && t.chance(1, 10);
   gp::Gen g(t, cfg);
   gp::Program p = g.generate();
   gp::normalise(p);
